@@ -55,12 +55,12 @@ ApplyPLeftTransSem(A, P) == ApplyPLeftTrans(A, P)
 ApplyPRightSem(A, P) == ApplyPRight(A, P)
 ApplyPRightTransSem(A, P) == ApplyPRightTrans(A, P)
 \* "triangular" transposed right application: swap i only on the rows above row i, ascending i
+\* (iterating over the non-trivial entries only: the recursion depth is their number, not the length of P)
 RECURSIVE TriSwaps(_, _, _)
-TriSwaps(A, P, i) ==
-  IF i >= Len(P) THEN A
-  ELSE IF P[i + 1] = i THEN TriSwaps(A, P, i + 1)
-  ELSE TriSwaps(ColSwapRows(A, i, P[i + 1], 0, Min({i, A.m})), P, i + 1)
-ApplyPRightTransTriSem(A, P) == TriSwaps(A, P, 0)
+TriSwaps(A, P, todo) ==
+  IF todo = {} THEN A
+  ELSE LET i == SetMin(todo) IN TriSwaps(ColSwapRows(A, i, P[i + 1], 0, Min({i, A.m})), P, todo \ {i})
+ApplyPRightTransTriSem(A, P) == TriSwaps(A, P, {i \in 0 .. Len(P) - 1 : P[i + 1] # i})
 
 \* ---- C17 observers ------------------------------------------------------------
 EqualSem(A, B) == IF Eq(A, B) THEN 1 ELSE 0
